@@ -25,6 +25,7 @@ def dstep (s : DSt) (toks : List String) : DSt × String :=
   | "mt" :: r => (s, EventsSpec.checkMT r)
   | "pt" :: r => (s, EventsSpec.checkPT r)
   | "hw" :: r => (s, EventsSpec.checkHW r)
+  | "hc" :: r => (s, EventsSpec.checkHC r)
   | _ => (s, "bad-op")
 
 def main : IO Unit := Hive.Proto.run dinit dstep
